@@ -72,6 +72,12 @@ mod client;
 mod tests;
 pub(super) use client::Client;
 
+// verif hook H4: deterministic-simulation harness (engine `conductor-exec`), mounted here because
+// `Initialized`, its event loop and the execution `Client` are private to this module tree.
+#[cfg(all(test, feature = "verif"))]
+#[path = "/verif/harness/conductor_exec/mod.rs"]
+mod verif;
+
 type CelestiaHeight = u64;
 
 pub(crate) struct Executor {
